@@ -43,6 +43,9 @@ CHECKS = {
              note=WORLD_NOTE + " take is not placed under concat!/flatten here: it ends unasked after its nth item, so its output does not satisfy the premise the property puts on upstreams."),
  "C15": dict(engine="world", technique="property-based testing: from_iter over a call-counting iterator (empty, finite up to 64, unbounded) under generated pull/dispose patterns, with nesting-depth and next()-count invariants",
              text="Oracle: items in iterator order, no Data/Terminate delivery begins inside a Data delivery, next() never ahead of Pulls, next() calls == items + completion, every idle Pull answered before it returns, exactly one completion, silence and no next() after disposal.", ref="DESIGN.md §4 C15"),
+ "C06": dict(engine="pipeline", technique="differential property testing: generated pull pipelines (from_iter, map, filter, scan, take, skip, concat!, map-then-flatten, for_each, pipe!) against the same program written with std::iter adaptors, plus next()-call accounting per iterator",
+             text="Programs are generated from a grammar (nesting depth <= 3, finite and unbounded inputs); oracle: arguments of f == reference Vec, Terminate reaches for_each before the subscribing call returns, every from_iter leaf advanced exactly items+exhaustion times and never ahead of Pulls, per-subscription consumption equals the lazy reference's, and pipe!(a, f1..fk) gives the same history as fk(..f1(a)).", ref="DESIGN.md §4 C06",
+             note="Trusted base: std::iter adaptors as the reference, the harness taps and counting iterators, the oracle code. Closures come from small tables of pure functions; unbounded inputs are cut off after 5000 items so a pipeline that fails to stop shows up as a wrong result, not a hang. Bounded exploration, never a proof."),
 }
 
 def main():
@@ -78,6 +81,8 @@ def main():
         "engines": [
             {"name": "world", "path": "harness/src/world.rs", "serves_properties": [p for p in ids if CHECKS.get(p, {}).get("engine") == "world"],
              "kind_free_text": "scenario interpreter: real crate operators between harness-owned puppet sources and probe sinks; proptest-generated byte strings decoded into scenarios; pure oracles over the recorded history"},
+            {"name": "pipeline", "path": "harness/src/pipeline.rs", "serves_properties": [p for p in ids if CHECKS.get(p, {}).get("engine") == "pipeline"],
+             "kind_free_text": "grammar-generated iterable programs run through the real crate (built with pipe!) and through std::iter as the reference"},
         ],
         "checks": checks,
         "notes": "All checks: exit 0 = held on everything explored, exit 1 + VIOLATION line = unlisted violation (replay file written under replays/), exit 2 = harness error / inconclusive. Known findings: known_findings.json.",
